@@ -173,7 +173,9 @@ def value_text(v, rng, pretty, indent=0, long_ok=True):
         if pretty and long_ok and rng.random() < 0.3:
             t = body[1]
             cut = rng.randint(0, len(t))
-            # cut only at a character boundary irrelevant here: bytes are copied raw
+            # each ''' segment is UTF-8 text by itself: cut at a character boundary
+            while 0 < cut < len(t) and 0x80 <= t[cut] <= 0xBF:
+                cut -= 1
             out += b"'''" + esc_bytes(t[:cut], 0x27) + b"''' '''" + esc_bytes(t[cut:], 0x27) + b"'''"
         else:
             out += b'"' + esc_bytes(body[1], 0x22) + b'"'
@@ -421,8 +423,7 @@ def correspond(ctx, component, lines, expect=None, c08_class=None, panics_known=
 
 
 def c08_classify(doc, line, go):
-    if b"{{" in doc:
-        return "text-skip-clob-in-container"
+    """skipping a clob inside a container (D11) is repaired: no known class is left"""
     return None
 
 
@@ -493,6 +494,25 @@ MALFORMED = [
     b"2000T/", b"2000-01T/1", b"2000T\x27a\x27", b"2000T{", b"2000T::a", b"a::2000T",
 ]
 
+# the defects repaired in the text reader: dangling annotations, '_' in exponents and fractional seconds, UTF-8, escapes that are
+# not scalar values, control characters in quoted symbols, "null. int", string field names "$n", $ion_symbol_table::null.struct
+MALFORMED += [
+    b"a::", b"[a::]", b"(a::)", b"a::b::", b"[a::,1]", b"{f:a::}", b"a:: ", b"a:://c", b"[a::/*c*/]", b"a::1",
+    b"1e5_0", b"1.d-6_5", b"1_0e5", b"1_0.5_0e5", b"1e_5", b"1d_5", b"1e5_", b"1e+5_0", b"1d-5_0", b"-1_0d1_0",
+    b"2000-01-01T00:00:00.1_0Z", b"2000-01-01T00:00:00.10Z", b"2000-01-01T00:00:00._1Z", b"2000-01-01T00:00:00.1_Z", b"2000-01-01T00:00:00.1_0+01:00",
+    b'"a\xffb"', b"'a\xffb'", b"'''a\xff'''", b"'''\xc3''' '''\xa9'''", b'"\xc3\xa9"', b"'\xc3\xa9'", b"'''\xc3\xa9''' '''\xe6\x97\xa5'''", b'"\xc3"', b'"\xed\xa0\x80"',
+    b'"\xf4\x90\x80\x80"', b'"\xc0\xaf"', b'"\xf0\x9f\x98\x80"', b"{'\xff':1}", b'{"\xff":1}', b"'\xff'::1", b"'''a''' '''\xff''' 1", b"'''\xff''' '''a'''",
+    b'"\\uD800"', b'"\\U00110000"', b'"\\U0000D800"', b'"\\uD83D\\uDE00"', b"'\\uD83D\\uDE00'", b"'''\\uD83D\\uDE00'''", b'"\\uDE00"', b'"\\uD83Dx"', b'"\\uD83D\\u0041"',
+    b'"\\uD83D\\uD83D"', b'"\\uD83D\\\n\\uDE00"', b'"\\uD83D"', b'"\\uD83D\\', b'"\\uD83D\\u', b'"\\uD83D\\uDE0"', b'"\\uDBFF\\uDFFF"', b'"\\UFFFFFFFF"', b'"\\U80000000"',
+    b'"\\U0001F600"', b'"\\U0010FFFF"', b'"\\U0000DFFF"', b'"\\uD7FF\\uE000"', b'"\\xD8"', b'{{"\\uD800"}}', b"'''\\uD83D''' '''\\uDE00'''",
+    b"'a\x07'", b"'a\tb'", b"'\x00'", b"'a\x1fb'", b"'a\x0bb'", b"{'\x01':1}", b"'\x01'::1", b"'\\x07'",
+    b"null. int", b"null.int", b"null./**/int", b"null.//c\nint", b"null.\tint", b"null.\nint", b"null.\x0bint", b"null .int", b"null.1", b"null.'int'", b"null.$x", b"[null. list]",
+    b'{"$5":1}', b"{'''$5''':1}", b"{$5:1}", b"{'$5':1}", b'{"name":1}', b'{"$99":1}', b'{"$-1":1}', b"{'''$''' '''5''':1}", b'{"$0":1}', b'$ion_symbol_table::{symbols:["a"]} {"$10":1,"a":2,$10:3}',
+    b"$ion_symbol_table::null.struct 1", b"[$ion_symbol_table::null.struct]", b"a::$ion_symbol_table::null.struct", b"$ion_symbol_table::null.list 1", b"$ion_symbol_table::a::null.struct 1",
+    b'$ion_symbol_table::{symbols:["a"]} $ion_symbol_table::null.struct $10', b'$ion_symbol_table::{symbols:["a"]} $ion_symbol_table::null.struct a $9',
+    b"$ion_symbol_table::null. struct 1", b"$ion_symbol_table::null.struct", b"'$ion_symbol_table'::null.struct 1", b"$3::null.struct 1",
+]
+
 SKIP_DOCS = [
     b'[{{"}"}}, 2] 3', b'["]", \'\'\'}\'\'\' ] 1', b"( /* ) */ ) 2", b'{a:"}"} 5', b'[{{"\\""}}, 2] 3', b"[{{'''}'''}}, 2] 3", b"[{{'''a'''}}] 3",
     b'[{{"a"}}] 3', b'[{{ "a" }}] 3', b'({{"]"}}) 3', b'{a:{{"}"}}} 3', b'{a:{{"a"}}} 3', b'[{{"{{"}}] 3', b'[{{"}}"}}] 3', b"[{{aGk=}}] 3",
@@ -507,6 +527,13 @@ SKIP_DOCS = [
     b"a::[1,2] b::{c:3} 4", b"a::{{\"x\"}} 3", b"[a::{{\"}\"}}] 3", b"[12a] 3", b"[1 2] 3", b"[1,,2] 3", b"[a:1] 3", b"{a} 3", b"{a:1 b:2} 3", b"(,) 3",
     b"[007] 3", b"[1__0] 3", b"[0x] 3", b"[2000-13-01] 3", b"[\"a\nb\"] 3", b"['a\nb'] 3", b"[\"\\q\"] 3", b"[1e5_0] 3", b"[{{a}}] 3", b"[{{\"\xc3\xa9\"}}] 3",
     b"[\"\x01\"] 3", b"['''\x01'''] 3", b"[$99] 3", b"[a::] 3", b"[null.foo] 3", b"{null:1} 3", b"[null::1] 3", b"[+::1] 3", b"{\"$99\":1} 3",
+]
+
+# clobs and deep nesting under the skipper
+SKIP_DOCS += [
+    b"[{{'''}''' '''}'''}}, 2] 3", b'[{{"a" "b"}}] 3', b"[{{'a'}}] 3", b"[{{ '''a''' // c\n '''b''' }}] 3", b"[{{'''a''' /* c */}}] 3", b'[{{"\\"}"}}, 1] 3', b"[{{'''\\'''}'''}}, 1] 3",
+    b'[{{"a\nb"}}] 3', b"[{{'''a\nb'''}}] 3", b'[{{"}}"}}, {{"{{"}}] 3', b"({{'''''' ''''''}}) 3", b'{a:{{"}"}}, b:{{\'\'\'}\'\'\'}}} 3', b'[{{"}"} }] 3', b'[{{"}" }}] 3', b'[{{"}"', b"[{{'''}'''",
+    b"[[[[[[[[[[[[[[[[[[[[1]]]]]]]]]]]]]]]]]]]] 3", b"[([{a:[({})]}])] 3", b"[[[[[[[[[[", b"[[[[]]]]] 3", b"[(])] 3", b"[(]) 3", b"{a:[}]} 3", b"[[[((({{{}}})))]]] 3", b"[{{}}] 3", b"[{{{}}}] 3",
 ]
 
 LST_DOCS = [
